@@ -45,8 +45,8 @@ def run(ctx):
     _rebuild(res)
     schema.run_table(res, 'C17', TABLE)
     K.canary_contract(res, MOD, '_mid', 'n_from_k',
-                      'implies(I(start_num) >= 1 and I(num_chars) >= 0 and I(start_num) <= slen(text), is_str(result) and '
-                      'S(result) == substr(text, I(start_num), min(I(num_chars), slen(text) - I(start_num) + 1)))')
+                      'implies(I(start_num) >= 1 and I(num_chars) >= 0, is_str(result) and '
+                      'S(result) == substr(text, I(start_num), max(0, min(I(num_chars), slen(text) - I(start_num) + 1))))')
     K.monitor_if_present(res, ctx, 'mon_c17')
     res.trusted_base += ['z3 sequence theory (str.substr, str.++, str.len)', 'L-SUBST']
     res.assumptions += ['A-STR: strings are sequences of code points', 'texts are str and counts are int (the operand kinds of '
